@@ -322,6 +322,22 @@ fn exec(ctx: &mut Ctx, s: &mut S, op: &str) {
             };
             (r.into(), Some(o.into()))
         }
+        "push_unchecked" => {
+            // only emitted when the documented contract holds (fewer than n values so far,
+            // value <= u and >= the last value): then it behaves like an accepted push
+            let v = num(1);
+            let last = s.acc.last().copied().unwrap_or(0);
+            assert!(s.acc.len() < s.n && v <= s.u && v >= last, "generator bug: push_unchecked contract");
+            s.acc.push(v);
+            let r = match &mut s.ph {
+                Ph::Seq(b) => match catch(|| unsafe { b.push_unchecked(v) }) {
+                    Some(_) => "ok",
+                    None => "panic",
+                },
+                _ => unreachable!("push_unchecked without builder"),
+            };
+            (r.into(), Some("ok".into()))
+        }
         "extend" => {
             let vs = parse_list(t[1]);
             let mut o = "ok";
@@ -967,6 +983,7 @@ fn random_case(ctx: &mut Ctx) {
             // one push at a time, with rejected pushes in between
             exec(ctx, &mut s, &format!("builder {} {}", n, u));
             let inject = ctx.rng.chance(1, 3);
+            let mix_unchecked = ctx.rng.chance(1, 3);
             for i in 0..n {
                 if inject && ctx.rng.chance(1, 12) {
                     malformed = true;
@@ -983,7 +1000,21 @@ fn random_case(ctx: &mut Ctx) {
                         exec(ctx, &mut s, &format!("push {}", b));
                     }
                 }
-                exec(ctx, &mut s, &format!("push {}", xs[i]));
+                if mix_unchecked && ctx.rng.chance(1, 3) {
+                    ctx.stat("push_unchecked");
+                    exec(ctx, &mut s, &format!("push_unchecked {}", xs[i]));
+                    // a checked push below the value just added must still be rejected
+                    let lo = if i > 0 { xs[i - 1] } else { 0 };
+                    if xs[i] > lo && ctx.rng.chance(1, 2) {
+                        malformed = true;
+                        ctx.stat("malformed:push-after-unchecked");
+                        let b = lo + ctx.rng.usize_below(xs[i] - lo);
+                        exec(ctx, &mut s, &format!("push {}", b));
+                        exec(ctx, &mut s, &format!("extend [{}]", b));
+                    }
+                } else {
+                    exec(ctx, &mut s, &format!("push {}", xs[i]));
+                }
             }
             if ctx.rng.chance(1, 4) {
                 malformed = true;
